@@ -9,6 +9,7 @@ pub mod c07;
 pub mod c08;
 pub mod c17;
 pub mod c18;
+pub mod c19;
 pub mod c20;
 pub mod execs;
 pub mod c09;
@@ -21,7 +22,7 @@ pub mod c15;
 pub mod c16;
 
 pub fn all() -> Vec<Box<dyn Prop>> {
-    vec![Box::new(c01::C01), Box::new(c02::C02), Box::new(c04::C04), Box::new(c05::C05), Box::new(c06::C06), Box::new(c07::C07), Box::new(c17::C17), Box::new(c18::C18), Box::new(c09::C09), Box::new(c10::C10), Box::new(c11::C11), Box::new(c14::C14), Box::new(c15::C15), Box::new(c16::C16), Box::new(c08::C08), Box::new(c13::C13), Box::new(c12::C12), Box::new(c20::C20)]
+    vec![Box::new(c01::C01), Box::new(c02::C02), Box::new(c04::C04), Box::new(c05::C05), Box::new(c06::C06), Box::new(c07::C07), Box::new(c17::C17), Box::new(c18::C18), Box::new(c09::C09), Box::new(c10::C10), Box::new(c11::C11), Box::new(c14::C14), Box::new(c15::C15), Box::new(c16::C16), Box::new(c08::C08), Box::new(c13::C13), Box::new(c12::C12), Box::new(c20::C20), Box::new(c19::C19)]
 }
 
 /// Developer utilities (`verif dbg <what> ...`).
